@@ -86,7 +86,7 @@ PayNow ==
      ELSE {[op |-> "build", table |-> "std"]}
 
 \* ---- family "cnt" ----------------------------------------------------------------------------------------
-BigCount == 1024                       \* above: Salsa20 or none, 24-byte table only (cost)
+BigCount == BulkFrom                   \* above: Salsa20 or none, 24-byte table only (cost)
 CntData(n) == [op |-> "add_data", len |-> n, fb |-> "r", pat |-> "rand"]
 CntNow ==
   IF hist = <<>> THEN {[op |-> "with_chunk_size", n |-> 1, checked |-> FALSE]}
@@ -98,7 +98,7 @@ CntNow ==
                   THEN {[op |-> "with_encryption", cipher |-> c] : c \in Ciphers} ELSE {}) \cup
                {CntData(c) : c \in {x \in Counts : x <= BigCount \/ b.enc # "A"}} \cup
                {CntData(c - 1) : c \in {x \in Counts : x <= BigCount}}
-          ELSE (IF na = 1 /\ last.len + 1 \in Counts /\ last.len < BigCount THEN {CntData(1)} ELSE {}) \cup
+          ELSE (IF na = 1 /\ IsAdd(last) /\ last.len + 1 \in Counts /\ last.len < BigCount THEN {CntData(1)} ELSE {}) \cup
                (IF NChunks(b) \in Counts
                   THEN {[op |-> "build", table |-> t] : t \in (IF NChunks(b) <= BigCount THEN {"std", "ext"} ELSE {"std"})}
                   ELSE {})
@@ -115,13 +115,13 @@ TableInv    == phase = "built" => TableTruthful(b)
 \* every broken position is attributed to exactly one listed deviation
 ExplainedInv == phase = "built" /\ ~Identity(b) => Broken(b) # {} /\ \A p \in Broken(b) : Known(WhyBroken(b, p))
 \* offsets are those of the concatenation, whatever the call sequence
-OffsetsInv == \A p \in 1..NChunks(b) :
+OffsetsInv == \A p \in 1..NRec(b) :
                 b.chunks[p].off = (IF p = 1 THEN 0 ELSE b.chunks[p - 1].off + b.chunks[p - 1].len)
 \* witnesses of the listed deviations: with the listed set switched on TLC must refute the property at a
 \* state that shows the deviation (regenerates the finding's counterexample; shortest first: BFS)
 Wit(cond) == (phase = "built" /\ cond) => (PrintT(<<"WITNESS", ToJson([inline |-> TRUE, ops |-> hist])>>) /\ FALSE)
 BrokenBy(f) == ~Identity(b) /\ \E p \in Broken(b) : WhyBroken(b, p) = f /\ (b.chunks[p].len > 0 \/ f = "F01d")
-TableBy(field, v) == HasTable(b) /\ \E p \in 1..NChunks(b) : b.chunks[p][field] = v /\ b.chunks[p].len > 0
+TableBy(field, v) == HasTable(b) /\ \E p \in 1..NRec(b) : b.chunks[p][field] = v /\ b.chunks[p].len > 0
 NoWitF01a == Wit(BrokenBy("F01a"))
 NoWitF01b == Wit(BrokenBy("F01b"))
 NoWitF01d == Wit(BrokenBy("F01d"))
